@@ -14,6 +14,7 @@ def gen(r, n):
     scs.append(dict(u=150, period=20, ta=None, grace=0, leak=0.7, dur=9, on_term="ignore", sigs=[(1.5, "TERM")]))
     scs.append(dict(u=150, period=20, ta=None, grace=4, leak=0.7, dur=12, on_term="ignore",
                     sigs=[(1.5, "INT"), (2.5, "INT")]))
+    scs.append(dict(u=150, period=20, ta=None, grace=2, leak=0.7, dur=9, on_term="ignore", child=True, sigs=[(1.5, "TERM")]))
     # during a timeout grace period
     scs.append(dict(u=150, period=1, ta=1, grace=4, leak=0.7, dur=12, on_term="ignore", sigs=[(2.5, "TERM")]))
     while len(scs) < n:
